@@ -751,7 +751,12 @@ fn low_level_terminal(ctx: &mut Ctx, files: &[corpus::TestFile]) {
                 let mut img = vec![];
                 let mut buf = &bytes[..];
                 let mut terminal = false;
+                let mut calls = 0usize;
                 while !buf.is_empty() && !terminal {
+                    calls += 1;
+                    if calls > crate::util::spin_budget(bytes.len()) {
+                        return Some("the decoder makes no progress (SPIN)".to_string());
+                    }
                     let n = piece.min(buf.len());
                     match dec.update(&buf[..n], &mut img) {
                         Ok((_, png::Decoded::ImageEnd)) => terminal = true,
@@ -826,7 +831,12 @@ fn reset_pairs(ctx: &mut Ctx, rng: &mut Rng) {
                 let mut dec = png::StreamingDecoder::new();
                 let mut img = vec![];
                 let mut buf = &a2[..];
+                let mut calls = 0usize;
                 while !buf.is_empty() {
+                    calls += 1;
+                    if calls > crate::util::spin_budget(a2.len()) {
+                        break;
+                    }
                     match dec.update(buf, &mut img) {
                         Ok((n, _)) => buf = &buf[n..],
                         Err(_) => break,
@@ -854,7 +864,13 @@ fn stream_with(dec: &mut png::StreamingDecoder, file: &[u8]) -> String {
     let mut evs: Vec<String> = vec![];
     let mut err = "ok".to_string();
     let mut buf = file;
+    let mut calls = 0usize;
     while !buf.is_empty() {
+        calls += 1;
+        if calls > crate::util::spin_budget(file.len()) {
+            err = "SPIN".to_string();
+            break;
+        }
         match dec.update(buf, &mut image_data) {
             Ok((n, ev)) => {
                 if let Some(s) = event_canon(&ev, &image_data[flushed_at..]) {
@@ -1285,7 +1301,12 @@ pub fn replay(prop: &str, ctx: &mut Ctx, c: &J) {
         let mut dec = png::StreamingDecoder::new();
         let mut img = vec![];
         let mut buf = &a[..];
+        let mut calls = 0usize;
         while !buf.is_empty() {
+            calls += 1;
+            if calls > crate::util::spin_budget(a.len()) {
+                break;
+            }
             match dec.update(buf, &mut img) {
                 Ok((n, _)) => buf = &buf[n..],
                 Err(_) => break,
